@@ -26,7 +26,11 @@ EXC = {1: ValueError, 2: AssertionError, 3: IndexError, 4: KeyError, 5: TypeErro
        10: AttributeError, 99: OSError}
 FAULT_KINDS = [1, 4, 5, 9, 3, 10, 2, 99]
 LATE_EXC = {3: ValueError, 4: KeyError, 5: TypeError, 6: RuntimeError}
-FINDING_CLASSES = {1: "hidden_entry_ignored", 2: "glob_metachar_dirname", 3: "cwd_entry_taken_for_logfile"}
+# finding classes the model can attribute a spec failure to.  None at present: hidden_entry_ignored (FC20a),
+# glob_metachar_dirname (FC20b) and cwd_entry_taken_for_logfile (FC20c) are repaired in /repo, the model reports
+# guard = 1 / class = 0 everywhere, nothing is suppressed, and their witnesses head the regression corpus
+# (DIR_CORPUS, PIPELINE_CORPUS): if one of them is accepted again the check reports a counterexample.
+FINDING_CLASSES = {}
 
 
 def local_err_code(exc):
@@ -513,7 +517,7 @@ def impl_prepare_specs(kind, reuse, dmeta, specs, logspec, cwdspec, relname, bas
             else:
                 with open(full, "w") as handle:
                     handle.write(f"content {k}")
-        names = os.listdir(name)     # scandir order = the order glob yields
+        names = os.listdir(name)     # scandir order = the order os.listdir and glob yield
     isdir_of = {entry: os.path.isdir(os.path.join(name, entry)) for entry in names}
     subdirs = [entry for entry in names if isdir_of[entry]]
     # the current directory
@@ -559,7 +563,8 @@ def impl_prepare_specs(kind, reuse, dmeta, specs, logspec, cwdspec, relname, bas
     else:
         env = [0, 9, fresh]
     env += [CWD_DIR[cwd_kind], names.index(cwd_entry) if cwd_kind == "entry" else fresh + 1]
-    # the name the code pastes into its glob pattern: "." and ".." contain no metacharacters
+    # the name the code is given (listed with os.listdir, escaped for the region glob): "." and ".." contain
+    # no metacharacters
     dmeta = dmeta and not (relname and cwd_kind in ("outdir", "entry"))
     flat = env + [kind, int(reuse), int(dmeta), len(entries)]
     for attrs in entries:
@@ -610,11 +615,31 @@ def impl_prepare_specs(kind, reuse, dmeta, specs, logspec, cwdspec, relname, bas
     return flat, out, observed, description
 
 
+# regression corpus, run first: the witnesses of the repaired defects (known_findings.json, status fixed)
+DIR_CORPUS = [
+    # FC20a hidden_entry_ignored: only a dot file / only .git/ / input/ and a dot file, fresh run -> refused
+    (1, False, False, ["hidden"], None, "default", False),
+    (1, False, False, ["hidden_dir"], None, "default", False),
+    (1, False, False, ["input_dir", "hidden"], None, "default", False),
+    (1, False, False, ["hidden"], ("inside", "run.log", 0), "default", False),
+    # FC20b glob_metachar_dirname: out[1]/file0.txt, fresh run -> refused; reuse mode -> stale region file removed
+    (1, False, True, ["file"], None, "default", False),
+    (1, True, True, ["region", "file"], None, "default", False),
+    (1, True, True, ["region", "hidden_region", "region_dir"], None, "default", False),
+    # FC20c cwd_entry_taken_for_logfile: out/dir0/ only, started from inside it, no --logfile -> refused
+    (1, False, False, ["dir"], None, "entry", True),
+    (1, False, False, ["dir"], None, "entry", False),
+    (1, False, False, ["input_dir", "dir"], None, "entry", True),
+    (1, False, False, ["logdir"], None, "entry", True),
+]
+
+
 def gen_dir_cases(chk, budget):
     """ (kind, reuse, dmeta, entry classes, logspec, cwdspec, relname) """
     rng = chk.rng
     pool = list(ENTRY_MAKERS)
-    cases = []
+    cases = list(DIR_CORPUS)
+    chk.count("dir_corpus_cases", len(cases))
     # the matrix: every single entry class and every pair with the benign ones, both modes; the log file
     # (named run.log) inside the output directory, as before
     inside = ("inside", "run.log", 0)
@@ -644,7 +669,7 @@ def gen_dir_cases(chk, budget):
                 for relname in (False, True):
                     for logspec in (None, inside, ("logs", "run.log", 0), ("parent", "run.log", 3)):
                         cases.append((1, reuse, False, classes_, logspec, cwdspec, relname))
-    chk.count("dir_matrix_cases", len(cases))
+    chk.count("dir_matrix_cases", len(cases) - len(DIR_CORPUS))
     lognames = ["run.log", "run.log", "absent.log", "log.region001.gbk", "input", 0, 1, 2]
     while len(cases) < budget:
         r = rng.random()
@@ -841,9 +866,20 @@ DIR_SCENARIOS = [
     (1, True, False, ["json", "region", "file"], None),                       # a previous run, reused
     (1, True, False, ["json", "region_dir"], None),                           # os.remove fails on a directory
     (1, True, False, ["file"], None),                                         # reuse from elsewhere
-    (1, False, False, ["hidden"], None),                                      # FC20a
-    (1, False, True, ["json", "file"], None),                                 # FC20b
+    (1, False, False, ["hidden"], None),                                      # FC20a (repaired): refused
+    (1, False, True, ["json", "file"], None),                                 # FC20b (repaired): refused
+    (1, True, True, ["json", "region", "file"], None),                        # reuse, glob-pattern directory name
     (2, False, False, [], None),                                              # not a directory
+]
+
+
+PIPELINE_CORPUS = [
+    # (kind, reuse, dmeta, entry classes, logspec, cwdspec)
+    (1, False, False, ["hidden"], None, "default"),                           # FC20a
+    (1, False, False, ["json", "hidden_dir"], None, "default"),
+    (1, False, True, ["file"], None, "default"),                              # FC20b
+    (1, False, False, ["dir"], None, "entry"),                                # FC20c
+    (1, False, False, ["json", "dir"], None, "entry"),
 ]
 
 
@@ -851,6 +887,20 @@ def gen_pipeline_cases(chk, budget):
     """ (plan, kind, reuse, dmeta, entry classes, logspec, cwdspec, records, results) """
     rng = chk.rng
     cases = []
+    # regression corpus: the witnesses of the repaired defects FC20a / FC20b / FC20c on a fault-free plan (the
+    # run must stop at prepare_output_directory) and the current-directory witness under every stage fault
+    for kind, reuse, dmeta, classes_, logspec, cwdspec in PIPELINE_CORPUS:
+        records, results = clean_plan(rng, 2, 2)
+        results = [[(2, 0, m[2], m[3]) for m in mods] for mods in results[:2]]
+        base_plan = clean_pipeline_plan(rng, 2)
+        base_plan["recs"] = [(0, 0, 1, 0), (0, 0, 0, 0)]
+        cases.append((base_plan, kind, reuse, dmeta, classes_, logspec, cwdspec, records, results))
+        if cwdspec != "default":
+            for stage in STAGES:
+                cases.append((dict(base_plan, **{stage: rng.choice(FAULT_KINDS)}), kind, reuse, dmeta, classes_,
+                              logspec, cwdspec, records, results))
+    chk.count("pipeline_corpus_cases", len(cases))
+    corpus_len = len(cases)
     # systematic: every stage fault, verify_options failing, every conversion position, on every scenario
     for scenario in DIR_SCENARIOS:
         records, results = clean_plan(rng, 2, 2)
@@ -872,7 +922,7 @@ def gen_pipeline_cases(chk, budget):
                 continue
             plan = apply_fault(records, results, 0, pos, rng.choice(FAULT_KINDS[:4]), rng)
             cases.append((base_plan,) + scenario + ("default", plan[0], plan[1]))
-    chk.count("pipeline_systematic_cases", len(cases))
+    chk.count("pipeline_systematic_cases", len(cases) - corpus_len)
     pool = ["file", "dir", "input_dir", "log", "region", "region_dir", "hidden", "json", "json", "gbk", "logdir"]
     while len(cases) < budget:
         nrec = rng.choice([0, 1, 1, 2, 2, 3])
@@ -918,13 +968,14 @@ RULE = ("write_to_file / dump_records: fault plans over 0-5 records x 0-4 result
         "conversion position (to_biopython, record_to_json, gather_record_areas, get_gc_content, each to_json, each "
         "custom object met by json.dumps, timings, results shorter than records, non-ModuleResults value) of every grid "
         "up to 2x3 (quick) / 3x4 (thorough) with every exception kind; random part = 0, 1 or several faults; "
-        "prepare_output_directory: real temporary directories, matrix of every entry class alone and paired with input "
+        "prepare_output_directory: real temporary directories, first the witnesses of the repaired defects FC20a/b/c "
+        "(regression corpus), then the matrix of every entry class alone and paired with input "
         "dir / log file / region file / hidden file, both modes, plain and glob-pattern directory names; log file "
         "inside / in the parent / in a sub-directory / in an unrelated directory x carrying the name of an entry (file "
         "or directory) or not x 5 spellings of the path (plain, /./, dir/../dir, relative, //) x no --logfile; current "
         "directory = an entry of the output directory / the output directory / its parent, output directory given "
         "absolute or relative; plus random listings of 0-6 entries; _run_antismash: the real function on real "
-        "directories with recorded collaborators, 12 directory scenarios x every stage fault / verify_options failing / "
+        "directories with recorded collaborators, the regression corpus, 13 directory scenarios x every stage fault / verify_options failing / "
         "every conversion position, plus random plans; non-trivial = a write case with at least one record and at least "
         "one fault or a successful write, a directory case with at least one entry, every pipeline case; distinct by "
         "flat encoding")
